@@ -8,7 +8,16 @@ ENGINES = ["euler", "tauleap", "gillespie"]
 
 
 def make_sim_case(rng, kind=None, space_kind=None, max_cells=6, chem=True, reactions=True, max_steps=200):
+    """rate constants in exotic unit systems can be astronomically large or small (a zeroth-order source of 1e40 molecules per
+    step makes libstdc++'s Poisson sampler spin): such systems are regenerated, the properties are not about them"""
     kind = kind or rng.choice(ENGINES)
+    while True:
+        c = _make_sim_case(rng, kind, space_kind, max_cells, chem, reactions, max_steps)
+        if abs(c.pop("tune_exponent", 0)) <= 40:
+            return c
+
+
+def _make_sim_case(rng, kind, space_kind, max_cells, chem, reactions, max_steps):
     desc = sysgen.rand_desc(rng, max_species=3, max_cells=max_cells, reactions=reactions, space_kind=space_kind, cubic=True)
     n, ns = sysgen.ncells(desc), len(desc["species"])
     # integer molecule counts (stochastic engines need them; 'none' processing is used)
@@ -28,8 +37,7 @@ def make_sim_case(rng, kind=None, space_kind=None, max_cells=6, chem=True, react
     c = {"desc": desc, "state": state, "state_units": ["µm", "s", "molecule"], "chs": chs, "units": us, "engine": kind,
             "dt": dt, "t_sample": ts, "t_max": steps * dt, "policy": rng.choice(["on_t_sample", "on_t_sample", "on_iteration", "on_interval"]),
             "interval": dt * rng.randint(1, 8), "seed": rng.randrange(2 ** 31), "init": "none"}
-    if rng.random() < 0.9:
-        tune_time_step(c)
+    c["tune_exponent"] = tune_time_step(c)
     return c
 
 
